@@ -1,1 +1,2 @@
+import SMD.Properties.C15
 import SMD.Properties.C17
